@@ -67,8 +67,9 @@ Section Inst.
                         (h_events (chain i)))
             (seq 0 n).
 
-  (* the network itself, run by a scheduler that always prefers the highest-numbered chain that can move *)
-  Definition net_run := run_sched _ _ (total_steps (e_sched c) (e_I c) (e_exchange c) n 0 (e_P c) + 1) (rev (seq 0 n)) the_net.
+  (* the network itself with queues of capacity ONE (a second message blocks the sender), run by a scheduler
+     that always prefers the highest-numbered chain that can move *)
+  Definition net_run := run_sched _ _ (Some 1%nat) (total_steps (e_sched c) (e_I c) (e_exchange c) n 0 (e_P c) + 1) (rev (seq 0 n)) the_net.
 
   Definition c12_guard : bool := run_definedb (e_sched c) (e_I c) (e_exchange c) n (e_P c).
   Definition c12_check : bool := c12_guard && outs_ok the_final && events_ok.
